@@ -109,24 +109,29 @@ def _repeat(word, w, bits):
 @functools.lru_cache(maxsize=None)
 def bit_pattern(nbits, w, dev, idx=0):
   """One prime is a repetition of a w-bit word apart from `dev` low-order bits; the
-  other prime is random."""
+  other prime is random. None if no such prime is found (e.g. exact repetitions when w
+  divides the prime length are always composite)."""
   pbits = nbits // 2
-  t = 0
-  while True:
+  p = None
+  for t in range(min(60, 2**max(w - 2, 0) * 2)):
     word = nt.drbg_int('bp-%d-%d-%d-%d-%d' % (nbits, w, dev, idx, t), w) | 1 | (1 << (w - 1))
     base = _repeat(word, w, pbits) | (1 << (pbits - 1))
     if dev == 0:
       if nt.is_prime(base):
         p = base
         break
-    else:
-      base = (base >> dev) << dev
-      p = nt.next_prime(base)
-      if p < base + (1 << dev):
+      continue
+    base = (base >> dev) << dev
+    start = nt.drbg_int('bp-off-%d-%d-%d-%d-%d' % (nbits, w, dev, idx, t), dev) | 1
+    for j in range(0, min(1 << dev, 1200), 2):
+      c = base + (start + j) % (1 << dev)
+      if c % 2 and nt.is_prime(c):
+        p = c
         break
-    t += 1
-    if t > 5000:
-      return None
+    if p:
+      break
+  if p is None:
+    return None
   q = nt.rand_prime('bp-q-%d-%d-%d-%d' % (nbits, w, dev, idx), nbits - pbits)
   return _mk('bit-pattern', p, q, w=w, dev=dev, word=word)
 
@@ -151,6 +156,8 @@ def permuted_pattern(nbits, wsize, psize, idx=0):
     if p < v + (1 << 16):
       break
     t += 1
+    if t > 200:
+      return None
   q = nt.rand_prime('pp-q-%d-%d-%d-%d' % (nbits, wsize, psize, idx), nbits - pbits)
   return _mk('permuted-pattern', p, q, wsize=wsize, psize=psize)
 
@@ -167,7 +174,7 @@ def both_patterned(nbits, w, idx=0):
     t += 1
     if nt.is_prime(c) and c not in out:
       out.append(c)
-    if t > 200000:
+    if t > min(4000, 2**(w + 1)):
       return None
   return _mk('both-patterned', out[0], out[1], w=w)
 
@@ -192,39 +199,65 @@ def low_hamming(nbits, weight, idx=0):
 
 @functools.lru_cache(maxsize=None)
 def pm1_smooth(nbits, both, idx=0):
-  """p-1 and q-1 share a 2^20-smooth factor >= 2^60; p-1 fully smooth (for the default
-  Pollard product); q-1 smooth too iff `both`."""
+  """p-1 and q-1 share a 2^20-smooth factor >= 2^60; p-1 is squarefree-smooth (every odd prime
+  factor < 2^20 occurs once, so it divides the default Pollard product); q-1 is smooth too iff
+  `both`, otherwise it has one large prime factor."""
   pbits = nbits // 2
-  primes = [x for x in nt.sieve(1 << 20)]
+  primes = nt.sieve(1 << 20)
+  used = set()
+
+  def pick(label, lo, hi):
+    t = 0
+    while True:
+      r = primes[lo + nt.drbg_int('pm1-pick-%s-%d' % (label, t), 40) % (hi - lo)]
+      t += 1
+      if r not in used:
+        used.add(r)
+        return r
+
   shared = 1
   k = 0
-  while shared.bit_length() <= 64:
-    shared *= primes[1000 + (nt.drbg_int('pm1s-%d-%d' % (idx, k), 30) % 60000)]
+  while shared.bit_length() <= 62:
+    shared *= pick('shared-%d-%d-%d' % (nbits, idx, k), 1000, 60000)
     k += 1
 
   def smooth_prime(label):
     t = 0
     while True:
+      mine = set()
       v = 2 * shared
       j = 0
-      while v.bit_length() < pbits - 21:
-        v *= primes[200 + nt.drbg_int('pm1-%s-%d-%d' % (label, t, j), 30) % 80000]
+      while v.bit_length() < pbits - 22:
+        r = primes[200 + nt.drbg_int('pm1-%s-%d-%d' % (label, t, j), 40) % 80000]
         j += 1
-      # top up to exactly pbits bits with one more small prime
-      need = pbits - v.bit_length()
+        if r in used or r in mine:
+          continue
+        mine.add(r)
+        v *= r
       for r in primes[::-1]:
-        if r.bit_length() <= need + 1 and (v * r).bit_length() == pbits and nt.is_prime(v * r + 1):
-          return v * r + 1
+        if r in used or r in mine:
+          continue
+        c = v * r + 1
+        if c.bit_length() == pbits and nt.is_prime(c):
+          return c
+        if (v * r).bit_length() < pbits:
+          break
       t += 1
 
   def half_smooth_prime(label):
-    t = 0
+    # q - 1 = 2 * shared * m with m a random integer (it has a large prime factor with
+    # overwhelming probability; checked below)
+    m = (3 << (pbits - 2)) // (2 * shared) + nt.drbg_int('pm1-m-%s' % label, 40)
     while True:
-      big = nt.rand_prime('pm1-big-%s-%d' % (label, t), pbits - shared.bit_length() - 1)
-      c = 2 * shared * big + 1
+      c = 2 * shared * m + 1
       if c.bit_length() == pbits and nt.is_prime(c):
-        return c
-      t += 1
+        rest = m
+        for r in primes:
+          while rest % r == 0:
+            rest //= r
+        if rest.bit_length() > 64:
+          return c
+      m += 1
 
   p = smooth_prime('p%d-%d' % (nbits, idx))
   q = smooth_prime('q%d-%d' % (nbits, idx)) if both else half_smooth_prime('q%d-%d' % (nbits, idx))
